@@ -147,13 +147,17 @@ def run_r(case):
     ctl = _Ctl(pool)
     H = _make_host(cfg, ctl)
     obj = H()
+    notifier = None
     if "n" in cfg or "l" in cfg:
         lst = obj._notifiers(True)
         if "n" in cfg:
-            lst.append(lambda o, name, old, new: ctl.notify(old, new))
+            notifier = lambda o, name, old, new: ctl.notify(old, new)  # noqa: E731
+            lst.append(notifier)
+        del lst
     ident = dict((id(p), i) for i, p in enumerate(pool))
     gc.collect()
     base = [sys.getrefcount(pool[i]) for i in range(POOL)]   # measured exactly as below (no loop variable)
+    nbase = sys.getrefcount(notifier) if notifier is not None else 0
     outs, hits, tags = [], [], set()
     adjust = [0] * POOL
     known_off = [0] * POOL
@@ -202,6 +206,20 @@ def run_r(case):
         refs = [0] + [sys.getrefcount(pool[i]) - base[i] + adjust[i] for i in range(1, POOL)]
         outs.append("%s d={%s} r=[%s]" % (res, ",".join(sorted(shown)), ",".join(map(str, refs))))
         # ---------------- oracle: reference neutrality, from the state alone
+        if notifier is not None:
+            # call_notifiers works on a copy of the notifier lists; when it returns - normally or because a
+            # notifier raised - it owns no reference to any notifier
+            ncur = sys.getrefcount(notifier)
+            if ncur != nbase:
+                hits.append({"signature": "refcount:%sattr-%s:notifier" % (kind, cls),
+                             "what": "after `%s` (%s) the notifier has %+d references (its list holds it once, as "
+                                     "before)" % (op, res, ncur - nbase)})
+                if ncur < nbase:
+                    import ctypes
+                    for _ in range(nbase - ncur):
+                        ctypes.pythonapi.Py_IncRef(ctypes.py_object(notifier))
+                else:
+                    nbase = ncur
         for i in range(1, POOL):
             off = refs[i] - held[i]
             if off != known_off[i]:
@@ -310,6 +328,137 @@ def exhaustive_r():
                         tail = " ".join(x for x in (dflt, post, noti) if x)
                         out.append("R|%s|%sget x 10 %s" % (flags, head, tail))
                         out.append("R|%s|%sdel x 10 %s" % (flags, head, tail))
+    return out
+
+
+# ============================================================================ V: validation is reference-neutral
+
+V_TRAITS = ["Int", "Float", "Str", "CInt", "CFloat", "CStr", "Bool", "Complex", "Bytes", "Any", "Range(0,9)",
+            "Range(0.0,1.0)", "Range(0.0,1.0,excl)", "Range(low=1)", "Enum(1,2,3)", "Either(Int,Str)",
+            "Either(None,Int)", "Either(Range,List)", "Either(Range,Float)", "Either(Range,Str)",
+            "Either(Float-Range,CInt)", "Either(Range,Range)", "Union(Int,Str)", "Union(None,Float)",
+            "Union(Range,Float)", "Either(Str,Range,Instance)", "Either(CFloat,Str)", "Either(Enum,Range,Tuple)",
+            "Tuple(Int,Str)", "Tuple(Float,Range)", "List(Int)", "List(Either(Range,Float))", "Set(Int)",
+            "Dict(Str,Int)", "Dict(Str,Either(Range,Str))", "Map", "PrefixList", "Instance(Cls)", "Callable",
+            "String(maxlen)", "Trait(0,Range)", "Trait(None,Int)", "Type", "TraitType-python-validate"]
+V_VALUES = ["f5.5", "f0.5", "f-3.25", "fnan", "i_big", "i_mid", "s_dyn", "s_num", "obj", "list", "flist", "tuple",
+            "ftuple", "dict", "fdict", "bytes", "cplx", "set"]
+
+
+def v_trait(name):
+    import traits.api as T
+    from .subserver import ct_catalog
+    extra = {
+        "Either(Range,Float)": lambda: T.Either(T.Range(0.0, 1.0), T.Float),
+        "Either(Range,Str)": lambda: T.Either(T.Range(0.0, 1.0), T.Str),
+        "Either(Float-Range,CInt)": lambda: T.Either(T.Range(-1.0, 1.0, exclude_high=True), T.CInt),
+        "Either(Range,Range)": lambda: T.Either(T.Range(0.0, 1.0), T.Range(2.0, 3.0), T.Range(0, 9)),
+        "Union(Range,Float)": lambda: T.Union(T.Range(0.0, 1.0), T.Float),
+        "Either(Str,Range,Instance)": lambda: T.Either(T.Str, T.Range(0.0, 1.0), T.Instance(T.HasTraits)),
+        "Either(CFloat,Str)": lambda: T.Either(T.CFloat, T.Str),
+        "Either(Enum,Range,Tuple)": lambda: T.Either(T.Enum(1, 2), T.Range(0.0, 1.0), T.Tuple(T.Float, T.Float)),
+        "Tuple(Float,Range)": lambda: T.Tuple(T.Float, T.Range(0.0, 1.0)),
+        "List(Either(Range,Float))": lambda: T.List(T.Either(T.Range(0.0, 1.0), T.Float)),
+        "Dict(Str,Either(Range,Str))": lambda: T.Dict(T.Str, T.Either(T.Range(0.0, 1.0), T.Str)),
+    }
+    if name in extra:
+        return extra[name]()
+    cat, _, _ = ct_catalog()
+    tr = cat[name]()
+    return tr() if isinstance(tr, type) else tr
+
+
+def v_value(name):
+    """A FRESH, mortal object every time (never an interned / cached constant)."""
+    big = int("12345678901")
+    return {
+        "f5.5": lambda: float("5.5"), "f0.5": lambda: float("0.5"), "f-3.25": lambda: float("-3.25"),
+        "fnan": lambda: float("nan"), "i_big": lambda: int("12345678901"), "i_mid": lambda: int("1000003"),
+        "s_dyn": lambda: "".join(["ab", "cd"]), "s_num": lambda: "".join(["1", "2", "3"]), "obj": lambda: object(),
+        "list": lambda: [big, 2], "flist": lambda: [float("5.5"), float("0.25")],
+        "tuple": lambda: (int("12345678902"), "".join(["x", "y"])), "ftuple": lambda: (float("2.5"), float("7.5")),
+        "dict": lambda: {"".join(["k", "1"]): big}, "fdict": lambda: {"".join(["k", "2"]): float("5.5")},
+        "bytes": lambda: bytes([65, 66, 67]), "cplx": lambda: complex("1+2j"), "set": lambda: {big, 3},
+    }[name]()
+
+
+_VCLS = {}
+
+
+def run_v(case):
+    """`#V <trait> | <value> | <path>`: repeat an assignment (or CTrait.validate) and compare the reference count
+    of the value passed in with the references the object's __dict__ legitimately holds."""
+    import traits.api as T
+    _, rest = case.split(" ", 1)
+    tname, vname, path = [x.strip() for x in rest.split("|")]
+    if tname not in _VCLS:
+        try:
+            _VCLS[tname] = type(T.HasTraits)("VHost", (T.HasTraits,), {"q": v_trait(tname)})
+        except Exception as e:
+            _VCLS[tname] = "cannot build: " + exc_name(e)
+    cls = _VCLS[tname]
+    if isinstance(cls, str):
+        return "skip " + cls, [], ["V:skip"]
+    h = cls()
+    v = v_value(vname)
+    if sys.getrefcount(v) >= 2 ** 30:
+        return "skip immortal value", [], ["V:skip"]
+    leaves = []
+    if isinstance(v, (list, tuple)):
+        leaves = [x for x in v if sys.getrefcount(x) < 2 ** 30]
+    elif isinstance(v, dict):
+        leaves = [x for x in v.values() if sys.getrefcount(x) < 2 ** 30]
+    hits, outs = [], []
+    ct = h.trait("q")
+    gc.collect()
+    base = sys.getrefcount(v)
+    lbase = [sys.getrefcount(leaves[i]) for i in range(len(leaves))]
+    first_leaf = None
+    for rep in range(4):
+        res = "ok"
+        try:
+            if path == "set":
+                h.q = v
+            else:
+                r = ct.validate(h, "q", v)
+                r = None
+        except Exception as e:
+            res = exc_name(e)
+            del e
+        stored = h.__dict__.get("q")
+        held = 1 if stored is v else 0
+        stored = None
+        if leaves:
+            gc.collect()   # a replaced Trait*Object is a reference cycle (its notifier is a bound method of itself)
+        cur = sys.getrefcount(v)
+        outs.append(res)
+        if cur - base != held:
+            hits.append({"signature": "refcount:validate:%s:%s-%s" % (tname, path, "ok" if res == "ok" else "raises"),
+                         "what": "%s of a fresh %s to %s, repetition %d (%s): the value has %+d references, the "
+                                 "object holds %d" % ("assignment" if path == "set" else "CTrait.validate", vname,
+                                                      tname, rep + 1, res, cur - base, held)})
+            break
+        # items of a container value: after the first round the stored container keeps what it keeps; later
+        # rounds must not add to it
+        lcur = [sys.getrefcount(leaves[i]) - lbase[i] for i in range(len(leaves))]
+        if rep == 0:
+            first_leaf = lcur
+        elif rep >= 2 and lcur != prev_leaf:
+            hits.append({"signature": "refcount:validate-items:%s:%s-%s" % (tname, path, "ok" if res == "ok" else "raises"),
+                         "what": "repeating the %s of a %s to %s keeps adding references to its items: %r then %r" % (
+                             path, vname, tname, prev_leaf, lcur)})
+            break
+        prev_leaf = lcur
+    return " ".join(outs), hits, ["V:" + path, "V:" + ("ok" if outs and outs[-1] == "ok" else "raises")]
+
+
+def gen_v(exhaustive, rng=None, n=0):
+    out = []
+    if exhaustive:
+        for t in V_TRAITS:
+            for v in V_VALUES:
+                for path in ("set", "validate"):
+                    out.append("#V %s | %s | %s" % (t, v, path))
     return out
 
 
